@@ -1,7 +1,8 @@
 """An independent transcription of the PEG reading of C01 over SURFACE grammars (no pyparsing objects, no Coq model):
 which elements skip leading whitespace is decided structurally, as the property states it
 (tokens skip, CharsNotIn does not; a sequence behaves as its first element; alternations and wrappers as their contents;
-negative lookahead does not skip; Combine skips once and then not at all inside; a Forward as its body).
+negative lookahead does not skip; Combine skips once and then not at all inside; a Forward as its body - but an element
+constructed around a Forward that is still empty sees the default "skips", because these flags are copied at construction).
 Used as the implementation-side oracle of tools/props/c01.py: it does not look at the flags of the real objects, so a
 change that breaks the constructors' flag inheritance shows up as a disagreement with a concrete input."""
 
@@ -16,27 +17,41 @@ class Spin(Exception):
     pass
 
 
-def skipws_flag(g, env, seen=()):
+def _before(env, k):
+    """the Forwards already assigned when the body of Forward k is constructed (the harness assigns them in env order, after
+    the root expression has been constructed with all of them still empty)"""
+    ks = list(env)
+    return frozenset(ks[:ks.index(k)]) if k in ks else frozenset()
+
+
+def ctime_flag(g, env, defd):
+    """skipWhitespace as a composite SEES it when it is constructed: an empty Forward still has the default True.  Enclosing
+    elements copy this value (And from its first element, wrappers from their content) and never refresh it."""
     k = g[0]
-    if k in ("lit", "clit", "kw", "ckw", "word", "char", "empty", "nomatch", "stringend"):
+    if k in ("lit", "clit", "kw", "ckw", "word", "char", "empty", "nomatch", "stringend", "combine", "each"):
         return True
     if k in ("notin", "not"):
         return False
-    if k in ("and",):
-        return skipws_flag(g[1], env, seen)
+    if k in ("and", "dlist", "opt", "star", "plus", "group", "suppress", "fb"):
+        return ctime_flag(g[1], env, defd)
     if k in ("mf", "or"):
-        return all(skipws_flag(x, env, seen) for x in g[1:])
-    if k == "each":
-        return True
-    if k in ("opt", "star", "plus", "group", "suppress", "fb", "dlist"):
-        return skipws_flag(g[1], env, seen)
-    if k == "combine":
-        return True
+        return all(ctime_flag(x, env, defd) for x in g[1:])
     if k == "fwd":
-        if g[1] in seen or g[1] not in env:
-            return True
-        return skipws_flag(env[g[1]], env, seen + (g[1],))
+        if g[1] in defd and g[1] in env:
+            return ctime_flag(env[g[1]], env, _before(env, g[1]))       # what `<<=` copied from the body
+        return True
     raise Unsupported(k)
+
+
+def skipws_flag(g, env, defd=frozenset()):
+    """skipWhitespace of the object at parse time (after streamline): MatchFirst / Or recompute it from their alternatives'
+    current values, a Forward has what `<<=` copied, everything else keeps its construction-time value"""
+    k = g[0]
+    if k in ("mf", "or"):
+        return all(skipws_flag(x, env, defd) for x in g[1:])
+    if k == "fwd":
+        return ctime_flag(env[g[1]], env, _before(env, g[1])) if g[1] in env else True
+    return ctime_flag(g, env, defd)
 
 
 def callpre_flag(g, env, seen=()):
@@ -56,14 +71,14 @@ def skip(s, loc):
     return loc
 
 
-def peg(g, env, s, loc, nows=False, depth=0):
+def peg(g, env, s, loc, nows=False, depth=0, defd=frozenset()):
     """returns (end, tokens) or None; nows = inside Combine(adjacent=True): nothing skips"""
     if depth > 150:
         raise Spin()
     k = g[0]
-    pre = (not nows) and callpre_flag(g, env) and skipws_flag(g, env)
+    pre = (not nows) and callpre_flag(g, env) and skipws_flag(g, env, defd)
     l0 = skip(s, loc) if pre else loc
-    P = lambda x, l: peg(x, env, s, l, nows, depth + 1)
+    P = lambda x, l: peg(x, env, s, l, nows, depth + 1, defd)
     if k == "lit":
         return (l0 + len(g[1]), [g[1]]) if s.startswith(g[1], l0) and l0 < len(s) + (1 if not g[1] else 0) else None
     if k == "clit":
@@ -119,7 +134,7 @@ def peg(g, env, s, loc, nows=False, depth=0):
         l, toks = l0, []
         first = True
         for x in g[1:]:
-            r = peg(x, env, s, l, nows, depth + 1)
+            r = peg(x, env, s, l, nows, depth + 1, defd)
             if r is None:
                 return None
             l, t = r
@@ -133,7 +148,7 @@ def peg(g, env, s, loc, nows=False, depth=0):
         return None
     if k == "or":
         l1 = l0
-        if (not nows) and all(callpre_flag(x, env) for x in g[1:]) and skipws_flag(g, env):
+        if (not nows) and all(callpre_flag(x, env) for x in g[1:]) and skipws_flag(g, env, defd):
             l1 = skip(s, l0)
         best = None
         for x in g[1:]:
@@ -206,7 +221,7 @@ def peg(g, env, s, loc, nows=False, depth=0):
         r = P(g[1], l0)
         return None if r is None else (r[0], [])
     if k == "combine":
-        r = peg(g[1], env, s, l0, True, depth + 1)
+        r = peg(g[1], env, s, l0, True, depth + 1, defd)
         if r is None:
             return None
         flat = []
@@ -222,7 +237,11 @@ def peg(g, env, s, loc, nows=False, depth=0):
     if k == "fwd":
         if g[1] not in env:
             return None
-        return P(env[g[1]], l0)
+        if nows and g[1] not in defd:
+            # Combine / leave_whitespace() around a Forward that is still empty only reaches a wrapper copy: the body assigned later
+            # keeps skipping whitespace.  Which calls then pre-parse depends on the wrapper chain; outside this transcription.
+            raise Unsupported("leave_whitespace over an unassigned Forward")
+        return peg(env[g[1]], env, s, l0, nows, depth + 1, _before(env, g[1]))
     raise Unsupported(k)
 
 
